@@ -118,6 +118,8 @@ def judge(before, op, after):
         for q in mb[par]:
             if q not in ma[c]:
                 return f"after attaching {c} under {par}, prefix {q} of the parent is not visible in the child"
+            if q not in mb[c] and ma[c][q] != mb[par][q]:
+                return f"after attaching {c} under {par}, the child sees {q}->{ma[c][q]!r} but the parent binds {q}->{mb[par][q]!r} (the child had no binding of its own for it)"
         for q, v in mb[c].items():
             if ma[c].get(q) != v:
                 return f"attaching {c} under {par} changed the child's own binding {q}: {v} -> {ma[c].get(q)}"
